@@ -3,7 +3,7 @@
 EXTENDS RP, Json, FiniteSetsExt, SequencesExt
 VARIABLE l
 Trace == ndJsonDeserialize("trace.ndjson")
-TInit == RInit0 /\ cfg = [pkce |-> FALSE] /\ l = 1
+TInit == RInit0 /\ cfg = [pkce |-> FALSE, via |-> "oauth", disc |-> "s256"] /\ l = 1
 TStep ==
   /\ l <= Len(Trace)
   /\ LET e == Trace[l] IN
